@@ -1080,6 +1080,16 @@ MUTANTS = [
          old="                    if snapshot.removed.contains(&item).not() {\n                        snapshot.added.remove(&item);\n",
          new="                    if snapshot.removed.contains(&item).not() {\n",
          expect="C09.i/merge/store-member-is-taken-out-of-the-staged-additions"),
+    dict(id="C13.f-D17-reintroduced-path-hashed-as-raw-bytes", prop="C13", file="crates/stable_hash/src/lib.rs",
+         old="        state.write_length_prefix(self.components().count());\n\n        for component in self.components() {\n            component.as_os_str().stable_hash(state);\n        }\n",
+         new="        self.as_os_str().stable_hash(state);\n",
+         expect="C13.f/Path/hashes-the-components-equality-compares"),
+    dict(id="C13.a-path-components-without-their-count", prop="C13", file="crates/stable_hash/src/lib.rs",
+         old="        state.write_length_prefix(self.components().count());\n\n        for component in self.components() {", new="        for component in self.components() {",
+         expect="C13.a/"),
+    dict(id="C13.a-length-prefix-skipped-for-empty", prop="C13", file="crates/stable_hash/src/lib.rs",
+         old="    fn write_length_prefix(&mut self, len: usize) { self.write_usize(len); }", new="    fn write_length_prefix(&mut self, len: usize) {\n        if len != 0 {\n            self.write_usize(len);\n        }\n    }",
+         expect="C13.a/write_length_prefix/writes-for-every-length"),
     dict(id="C12.k-varint-reader-u128-stops-on-set-bit", prop="C12", file="crates/serialize/src/postcard.rs",
          old="            result |= u128::from(byte & 0x7F) << shift;\n\n            if byte & 0x80 == 0 {",
          new="            result |= u128::from(byte & 0x7F) << shift;\n\n            if byte & 0x80 != 0 {",
